@@ -14,7 +14,7 @@
    Tables are Python dicts: insertion-ordered association lists; assigning to a present key replaces the value in
    place, assigning to an absent key appends.
 
-   Fuel: [defns] recurses through the mixins, [_update] through the children, [_set] down the tiebreaks; each
+   Fuel: [defns] and [lock] recurse through the mixins, [_update] through the children, [_set] down the tiebreaks; each
    has explicit fuel and answers [None] when it runs out (in Python: RecursionError, which happens exactly when
    add_mixins closed a cycle).  [step] refuses (outcome [Invalid]) the operations that refer to non-existent nodes
    or would close a cycle -- the check [wf_b] is the computation "every traversal of the new graph terminates
@@ -117,20 +117,42 @@ Fixpoint defns (fuel : nat) (g : graph) (n : nat) : option table :=
            end
   end.
 
+(* ---------- lock: the node, then every mixin that is not locked yet, recursively (regardless of linkback) ---------- *)
+Fixpoint lock_rec (fuel : nat) (g : graph) (m : nat) : option graph :=
+  match fuel with
+  | 0 => None
+  | S f =>
+      match g_get g m with
+      | None => None
+      | Some x =>
+          fold_left (fun acc q => match acc with
+                                  | Some a => match g_get a q with
+                                              | Some y => if n_locked y then Some a else lock_rec f a q
+                                              | None => None
+                                              end
+                                  | None => None
+                                  end)
+                    (n_mixins x) (Some (g_mod g m set_locked))
+      end
+  end.
+
 (* ---------- compile: lock every mixin that does not list this node among its children; snapshot defns ---------- *)
-Definition lock_parents (g : graph) (n : nat) (ms : list nat) : graph :=
-  fold_left (fun acc m => match g_get acc m with
-                          | Some y => if mem n (n_children y) then acc else g_mod acc m set_locked
-                          | None => acc
-                          end) ms g.
+Definition lock_parents (g : graph) (n : nat) (ms : list nat) : option graph :=
+  fold_left (fun acc m => match acc with
+                          | Some a => match g_get a m with
+                                      | Some y => if mem n (n_children y) then Some a else lock_rec (length g) a m
+                                      | None => None
+                                      end
+                          | None => None
+                          end) ms (Some g).
 
 Definition compile (g : graph) (n : nat) : option graph :=
   match g_get g n with
   | None => None
   | Some x =>
-      match defns (length g) g n with
-      | None => None
-      | Some t => Some (g_mod (lock_parents g n (n_mixins x)) n (set_snap t))
+      match lock_parents g n (n_mixins x), defns (length g) g n with
+      | Some g1, Some t => Some (g_mod g1 n (set_snap t))
+      | _, _ => None
       end
   end.
 
@@ -206,6 +228,8 @@ Definition do_create (g : graph) (ms : list nat) (lb : bool) : graph * outcome :
     (g1 ++ [add_mix ms (new_node lb)], Done)
   else (g, Invalid).
 
+(* add_mixins: guard, "is not self" filter, children of the new parents when this node is a linkback derivation,
+   mixins += ..., and -- when something was added -- _update() like any other change *)
 Definition do_add_mixins (g : graph) (n : nat) (ms : list nat) : graph * outcome :=
   match g_get g n with
   | None => (g, Invalid)
@@ -213,10 +237,18 @@ Definition do_add_mixins (g : graph) (n : nat) (ms : list nat) : graph * outcome
       if negb (valid_ids g ms) then (g, Invalid)
       else if n_locked x then (g, Locked)
       else
-        let ms' := filter (fun m => negb (Nat.eqb m n)) ms in       (* "is not self" *)
-        let g1 := if n_linkback x then fold_left (fun acc m => g_mod acc m (add_child n)) ms' g else g in
-        let g2 := g_mod g1 n (add_mix ms') in
-        if wf_b g2 then (g2, Done) else (g, Invalid)
+        match filter (fun m => negb (Nat.eqb m n)) ms with
+        | [] => (g, Done)
+        | ms' =>
+            let g1 := if n_linkback x then fold_left (fun acc m => g_mod acc m (add_child n)) ms' g else g in
+            let g2 := g_mod g1 n (add_mix ms') in
+            if wf_b g2 then
+              match upd (length g) g2 n with
+              | Some g' => (g', Done)
+              | None => (g, Stuck)
+              end
+            else (g, Invalid)
+        end
   end.
 
 Definition do_modify (g : graph) (n : nat) (f : table -> option table) : graph * outcome :=
@@ -291,28 +323,26 @@ Definition otable_eqb (a b : option table) : bool :=
 (* is the node's observable what a rebuild would produce now? *)
 Definition fresh_b (g : graph) (n : nat) : bool := otable_eqb (obs g n) (defns (length g) g n).
 
-(* ---------- classifiers of the two open findings, as decidable predicates on (graph, operation) ---------- *)
+(* ---------- classifier of the open finding KF-43, as a decidable predicate on (graph, operation) ---------- *)
 Definition compiled_b (g : graph) (n : nat) : bool :=
   match g_get g n with Some x => n_compiled x | None => false end.
 
-(* KF-18: a successful register/unregister on [n] leaves out of date every used node that derives from [n]
-   without being reached by the linkback propagation (the lock did not reach [n]) *)
+(* a successful register / unregister / add_mixins on [n] leaves out of date every used node that derives from [n]
+   without being reached by the linkback propagation.  (Since the lock became transitive such a node can only derive
+   from [n] through linkback derivations from a never-used node that is itself a plain derivation: KF-43.) *)
 Definition exposed_mod (g : graph) (n : nat) : list nat :=
   filter (fun c => compiled_b g c && anc_b (length g) g n c && negb (lb_b (length g) g n c)) (seq 0 (length g)).
 
-(* KF-40: add_mixins neither rebuilds nor propagates: every used node among [n] and what derives from it *)
-Definition exposed_mix (g : graph) (n : nat) : list nat :=
-  filter (fun c => compiled_b g c && anc_b (length g) g n c) (seq 0 (length g)).
+Definition is_nil {A} (l : list A) : bool := match l with [] => true | _ => false end.
 
 Definition exposed (g : graph) (o : op) : list nat :=
   match o with
   | ORegister n _ _ | OUnregister n _ => exposed_mod g n
-  | OAddMixins n _ => exposed_mix g n
+  | OAddMixins n ms => if is_nil (filter (fun m => negb (Nat.eqb m n)) ms) then [] else exposed_mod g n
   | _ => []
   end.
 
 Definition is_done (o : outcome) : bool := match o with Done => true | _ => false end.
-Definition is_nil {A} (l : list A) : bool := match l with [] => true | _ => false end.
 
 (* histories in which no successful operation leaves a used node out of date *)
 Fixpoint stale_free_from (g : graph) (ops : list op) : bool :=
@@ -321,13 +351,3 @@ Fixpoint stale_free_from (g : graph) (ops : list op) : bool :=
   | o :: r => (negb (is_done (snd (step g o))) || is_nil (exposed g o)) && stale_free_from (step_g g o) r
   end.
 Definition stale_free (ops : list op) : bool := stale_free_from [] ops.
-
-(* histories in which add_mixins is never applied to a node already in use *)
-Definition late_mixin (g : graph) (o : op) : bool :=
-  match o with OAddMixins n _ => compiled_b g n | _ => false end.
-Fixpoint no_late_mixin_from (g : graph) (ops : list op) : bool :=
-  match ops with
-  | [] => true
-  | o :: r => negb (late_mixin g o) && no_late_mixin_from (step_g g o) r
-  end.
-Definition no_late_mixin (ops : list op) : bool := no_late_mixin_from [] ops.
